@@ -141,6 +141,11 @@ def sub_conversion(
     )
 
 
+def _has_type_var(tp: AnyType) -> bool:
+    # type variables can be nested at any depth, e.g. Dict[str, List[T]]
+    return is_type_var(tp) or any(map(_has_type_var, get_args2(tp)))
+
+
 class DeserializationVisitor(ConversionsVisitor[Deserialization, Result]):
     @staticmethod
     def _has_conversion(
@@ -155,9 +160,7 @@ class DeserializationVisitor(ConversionsVisitor[Deserialization, Result]):
                         continue
                     identity_conv = True
                     conv = ResolvedConversion(replace(conv, sub_conversion=identity))
-                if is_type_var(conv.source) or any(
-                    map(is_type_var, get_args2(conv.source))
-                ):
+                if _has_type_var(conv.source):
                     _, substitution = subtyping_substitution(tp, conv.target)
                     conv = replace(
                         conv, source=substitute_type_vars(conv.source, substitution)
@@ -197,9 +200,7 @@ class SerializationVisitor(ConversionsVisitor[Serialization, Result]):
             if is_subclass(tp, conv.source):
                 if is_identity(conv):
                     return True, None
-                if is_type_var(conv.target) or any(
-                    map(is_type_var, get_args2(conv.target))
-                ):
+                if _has_type_var(conv.target):
                     substitution, _ = subtyping_substitution(conv.source, tp)
                     conv = replace(
                         conv, target=substitute_type_vars(conv.target, substitution)
